@@ -460,3 +460,383 @@ Proof.
   { unfold F. destruct f as [l|]; [apply unm_strings_jstrs|reflexivity]. }
   rewrite EF, bind_ret_l, bind_ret_l. reflexivity.
 Qed.
+
+(** ------------------------------------------------------------------ *)
+(** * 5. The descriptors: which keys each field answers to *)
+
+Lemma f_cache_disabled : forall m, field "Disabled" (partition_keys struct_Cache m) = first_key ["disabled"] m.
+Proof. intros; fk. Qed.
+Lemma f_cache_name : forall m, field "Name" (partition_keys struct_Cache m) = first_key ["name"] m.
+Proof. intros; fk. Qed.
+Lemma f_cache_paths : forall m, field "Paths" (partition_keys struct_Cache m) = first_key ["paths"] m.
+Proof. intros; fk. Qed.
+Lemma f_cache_size : forall m, field "Size" (partition_keys struct_Cache m) = first_key ["size"] m.
+Proof. intros; fk. Qed.
+Lemma f_adj_with : forall m, field "With" (partition_keys struct_MatrixAdjustment m) = first_key ["with"] m.
+Proof. intros; fk. Qed.
+Lemma f_adj_skip : forall m, field "Skip" (partition_keys struct_MatrixAdjustment m) = first_key ["skip"] m.
+Proof. intros; fk. Qed.
+Lemma f_mx_setup : forall m, field "Setup" (partition_keys struct_Matrix m) = first_key ["setup"] m.
+Proof. intros; fk. Qed.
+Lemma f_mx_adj : forall m, field "Adjustments" (partition_keys struct_Matrix m) = first_key ["adjustments"] m.
+Proof. intros; fk. Qed.
+Lemma f_outer_commands : forall m,
+  field "Commands" (partition_keys struct_CommandStep_UnmarshalOrdered_anon0 m) = first_key ["commands"; "command"] m.
+Proof. intros; fk. Qed.
+Lemma f_cmd_key : forall m, field "Key" (partition_keys struct_CommandStep m) = first_key ["key"; "id"; "identifier"] m.
+Proof. intros; fk. Qed.
+Lemma f_cmd_label : forall m, field "Label" (partition_keys struct_CommandStep m) = first_key ["label"; "name"] m.
+Proof. intros; fk. Qed.
+Lemma f_cmd_command : forall m, field "Command" (partition_keys struct_CommandStep m) = first_key ["command"] m.
+Proof. intros; fk. Qed.
+Lemma f_cmd_plugins : forall m, field "Plugins" (partition_keys struct_CommandStep m) = first_key ["plugins"] m.
+Proof. intros; fk. Qed.
+Lemma f_cmd_env : forall m, field "Env" (partition_keys struct_CommandStep m) = first_key ["env"] m.
+Proof. intros; fk. Qed.
+Lemma f_cmd_sig : forall m, field "Signature" (partition_keys struct_CommandStep m) = first_key ["signature"] m.
+Proof. intros; fk. Qed.
+Lemma f_cmd_matrix : forall m, field "Matrix" (partition_keys struct_CommandStep m) = first_key ["matrix"] m.
+Proof. intros; fk. Qed.
+Lemma f_cmd_cache : forall m, field "Cache" (partition_keys struct_CommandStep m) = first_key ["cache"] m.
+Proof. intros; fk. Qed.
+Lemma f_grp_key : forall m, field "Key" (partition_keys struct_GroupStep m) = first_key ["key"; "id"; "identifier"] m.
+Proof. intros; fk. Qed.
+Lemma f_grp_group : forall m, field "Group" (partition_keys struct_GroupStep m) = first_key ["group"; "label"; "name"] m.
+Proof. intros; fk. Qed.
+Lemma f_grp_steps : forall m, field "Steps" (partition_keys struct_GroupStep m) = first_key ["steps"] m.
+Proof. intros; fk. Qed.
+Lemma f_pp_steps : forall m, field "Steps" (partition_keys struct_Pipeline m) = first_key ["steps"] m.
+Proof. intros; fk. Qed.
+Lemma f_pp_env : forall m, field "Env" (partition_keys struct_Pipeline m) = first_key ["env"] m.
+Proof. intros; fk. Qed.
+
+Lemma kt_cache : ktab struct_Cache = [("disabled", []); ("name", []); ("paths", []); ("size", [])].
+Proof. vm_compute. reflexivity. Qed.
+Lemma kt_adj : ktab struct_MatrixAdjustment = [("with", []); ("skip", [])].
+Proof. vm_compute. reflexivity. Qed.
+Lemma kt_matrix : ktab struct_Matrix = [("setup", []); ("adjustments", [])].
+Proof. vm_compute. reflexivity. Qed.
+Lemma kt_outer : ktab struct_CommandStep_UnmarshalOrdered_anon0 = [("commands", ["command"])].
+Proof. vm_compute. reflexivity. Qed.
+Lemma kt_cmd : ktab struct_CommandStep =
+  [("key", ["id"; "identifier"]); ("label", ["name"]); ("command", []); ("plugins", []); ("env", []);
+   ("signature", []); ("matrix", []); ("cache", [])].
+Proof. vm_compute. reflexivity. Qed.
+Lemma kt_group : ktab struct_GroupStep = [("key", ["id"; "identifier"]); ("group", ["label"; "name"]); ("steps", [])].
+Proof. vm_compute. reflexivity. Qed.
+Lemma kt_pipeline : ktab struct_Pipeline = [("steps", []); ("env", [])].
+Proof. vm_compute. reflexivity. Qed.
+
+(* X : In (pk, al) [literal table]: one goal per row *)
+Ltac ktab_cases X :=
+  cbn [In] in X;
+  repeat (destruct X as [X|X]; [inversion X; subst; clear X|]); [..|destruct X].
+
+(** decoding optional string / string-list members *)
+Lemma opt_str_field : forall name p s,
+  field name p = option_map gv_of_json (if String.eqb s "" then None else Some (JStr s)) ->
+  opt_field name p "" unm_string = Ok s 0.
+Proof.
+  intros name p s H. destruct (String.eqb_spec s "") as [E|N]; cbn [option_map] in H.
+  - rewrite (opt_field_none _ _ _ _ H). subst. reflexivity.
+  - rewrite (opt_field_some _ _ _ _ _ H). reflexivity.
+Qed.
+
+Lemma opt_strs_field : forall name p l,
+  field name p = option_map gv_of_json (match l with [] => None | _ => Some (jstrs l) end) ->
+  exists o, opt_field name p None unm_strings = Ok o 0 /\ strings_or_nil o = l.
+Proof.
+  intros name p l H. destruct l as [|x r]; cbn [option_map] in H.
+  - rewrite (opt_field_none _ _ _ _ H). exists None. split; reflexivity.
+  - rewrite (opt_field_some _ _ _ _ _ H). exists (Some (x :: r)). split; [apply unm_strings_jstrs|reflexivity].
+Qed.
+
+(** ------------------------------------------------------------------ *)
+(** * 6. Cache *)
+
+Definition cache_primary : list string := ["disabled"; "name"; "paths"; "size"].
+
+(* a cache that is disabled, or whose extra fields are distinct, stable, and not named like a schema field *)
+Definition cache_fix_ok (c : cache) : Prop := ca_disabled c = true \/ rem_ok cache_primary (ca_rem c).
+
+Definition cache_ol (c : cache) : list (string * option json) :=
+  [("name", if String.eqb (ca_name c) "" then None else Some (JStr (ca_name c)));
+   ("paths", match ca_paths c with [] => None | _ => Some (jstrs (ca_paths c)) end);
+   ("size", if String.eqb (ca_size c) "" then None else Some (JStr (ca_size c)))].
+
+Lemma mj_cache_eq : forall c, ca_disabled c = false ->
+  mj_cache c = inline_friendly (compact (cache_ol c)) (ca_rem c).
+Proof.
+  intros c D. unfold mj_cache, cache_ol. rewrite D.
+  destruct (String.eqb (ca_name c) ""), (ca_paths c), (String.eqb (ca_size c) ""); reflexivity.
+Qed.
+
+Lemma cache_reobj : forall o1 o2 o3 rem, rem_ok cache_primary rem ->
+  let ol := [("name", o1); ("paths", o2); ("size", o3)] in
+  let p := partition_keys struct_Cache (gmap (members (inline_friendly (compact ol) rem))) in
+  field "Disabled" p = None /\ field "Name" p = option_map gv_of_json o1 /\
+  field "Paths" p = option_map gv_of_json o2 /\ field "Size" p = option_map gv_of_json o3 /\
+  inline_friendly (compact ol) (leftover p) = inline_friendly (compact ol) rem.
+Proof.
+  intros o1 o2 o3 rem R ol p.
+  assert (Nol : NoDup (map fst ol)) by (apply nodupb_sound; reflexivity).
+  pose proof R as (Nr & Av & Vs).
+  assert (G : forall k, In k cache_primary ->
+            aget k (gmap (members (inline_friendly (compact ol) rem))) =
+            match aget k ol with Some (Some j) => Some (gv_of_json j) | _ => None end).
+  { intros k I. rewrite reobj_get by assumption. rewrite (rem_ok_none _ _ _ R I).
+    destruct (aget k ol) as [[|]|]; reflexivity. }
+  unfold p. rewrite f_cache_disabled, f_cache_name, f_cache_paths, f_cache_size. cbn [first_key].
+  rewrite !G by (unfold cache_primary; in_lit).
+  split; [reflexivity|]. split; [destruct o1; reflexivity|]. split; [destruct o2; reflexivity|].
+  split; [destruct o3; reflexivity|].
+  rewrite leftover_spec.
+  apply (reobj_fix (compact ol) rem
+           (fun k => negb (existsb (String.eqb k) (DecodeProofs.consumed (partition_keys struct_Cache
+              (gmap (members (inline_friendly (compact ol) rem)))))))); try assumption.
+  - apply compact_nodup. exact Nol.
+  - apply consumed_not_in_rem. intros pk al Hin. rewrite kt_cache in Hin.
+    ktab_cases Hin; (split; [apply Av; unfold cache_primary; in_lit|intros a []]).
+Qed.
+
+Theorem cache_roundtrip : forall c, cache_fix_ok c ->
+  exists c', unm_cache (gv_of_json (mj_cache c)) = Ok (Some c') 0 /\ mj_cache c' = mj_cache c.
+Proof.
+  intros c H. destruct (ca_disabled c) eqn:D.
+  - exists (mkCache true "" [] "" []). unfold mj_cache. rewrite D. split; reflexivity.
+  - destruct H as [H|R]; [congruence|].
+    rewrite (mj_cache_eq c D). rewrite inline_friendly_members, gv_of_json_obj.
+    cbn [unm_cache]. cbv zeta.
+    pose proof (cache_reobj (if String.eqb (ca_name c) "" then None else Some (JStr (ca_name c)))
+                  (match ca_paths c with [] => None | _ => Some (jstrs (ca_paths c)) end)
+                  (if String.eqb (ca_size c) "" then None else Some (JStr (ca_size c))) _ R) as X.
+    cbv zeta in X. fold (cache_ol c) in X. destruct X as (F1 & F2 & F3 & F4 & FL).
+    set (p := partition_keys struct_Cache (gmap (members (inline_friendly (compact (cache_ol c)) (ca_rem c))))) in *.
+    rewrite (opt_field_none _ _ _ _ F1). unfold ret. rewrite bind_ret_l.
+    rewrite (opt_str_field _ _ _ F2), bind_ret_l.
+    destruct (opt_strs_field _ _ _ F3) as (o & Eo & So). rewrite Eo, bind_ret_l.
+    rewrite (opt_str_field _ _ _ F4), bind_ret_l. rewrite So.
+    eexists. split; [reflexivity|].
+    rewrite mj_cache_eq by reflexivity. exact FL.
+Qed.
+
+(** generic: structs without aliases *)
+Lemma reobj_schema_get : forall ol rem schema k,
+  NoDup (map fst ol) -> rem_ok schema rem -> In k schema ->
+  aget k (gmap (members (inline_friendly (compact ol) rem))) =
+  match aget k ol with Some (Some j) => Some (gv_of_json j) | _ => None end.
+Proof.
+  intros ol rem schema k Nol R I. pose proof R as (Nr & _ & _).
+  rewrite reobj_get by assumption. rewrite (rem_ok_none _ _ _ R I).
+  destruct (aget k ol) as [[|]|]; reflexivity.
+Qed.
+
+Lemma noalias_fix : forall fields ol rem schema,
+  (forall pk al, In (pk, al) (ktab fields) -> In pk schema /\ al = []) ->
+  NoDup (map fst ol) -> rem_ok schema rem ->
+  inline_friendly (compact ol)
+    (leftover (partition_keys fields (gmap (members (inline_friendly (compact ol) rem)))))
+  = inline_friendly (compact ol) rem.
+Proof.
+  intros fields ol rem schema HK Nol (Nr & Av & Vs). rewrite leftover_spec.
+  apply (reobj_fix (compact ol) rem
+           (fun k => negb (existsb (String.eqb k) (DecodeProofs.consumed (partition_keys fields
+              (gmap (members (inline_friendly (compact ol) rem)))))))); try assumption.
+  - apply compact_nodup. exact Nol.
+  - apply consumed_not_in_rem. intros pk al Hin. destruct (HK pk al Hin) as [Hs ->].
+    split; [apply Av; exact Hs|intros a []].
+Qed.
+
+Lemma mapM_map_ok0 : forall {A T U} (h : A -> T) (f : T -> res U) (g : A -> U) l,
+  (forall a, In a l -> f (h a) = Ok (g a) 0) -> mapM f (map h l) = Ok (map g l) 0.
+Proof.
+  intros A T U h f g l. induction l as [|x r IH]; intros H; [reflexivity|].
+  cbn [mapM map]. rewrite (H x) by (left; reflexivity). rewrite bind_ret_l.
+  rewrite IH by (intros y Hy; apply H; right; exact Hy). rewrite bind_ret_l. reflexivity.
+Qed.
+
+Lemma mapM_roundtrip : forall {A} (f : gv -> res A) (mj : A -> json) (P : A -> Prop),
+  (forall a, P a -> exists a', f (gv_of_json (mj a)) = Ok a' 0 /\ mj a' = mj a) ->
+  forall l, Forall P l -> exists l', mapM f (map gv_of_json (map mj l)) = Ok l' 0 /\ map mj l' = map mj l.
+Proof.
+  intros A f mj P H l F. induction F as [|x r Hx Hr IH].
+  - exists []. split; reflexivity.
+  - destruct (H x Hx) as (x' & E1 & E2). destruct IH as (r' & E3 & E4).
+    exists (x' :: r'). cbn [map mapM]. rewrite E1, bind_ret_l, E3, bind_ret_l. split; [reflexivity|].
+    rewrite E2, E4. reflexivity.
+Qed.
+
+(** ------------------------------------------------------------------ *)
+(** * 7. Matrix *)
+
+Lemma mj_map_ss_sort : forall l, mj_map_ss (sort_keys l) = mj_map_ss l.
+Proof.
+  intros l. unfold mj_map_ss. f_equal.
+  rewrite (sort_keys_map (fun v => JStr v) (sort_keys l)), sort_keys_idem, <- (sort_keys_map (fun v => JStr v) l).
+  reflexivity.
+Qed.
+
+Lemma sort_keys_length : forall {T} (l : list (string * T)), length (sort_keys l) = length l.
+Proof. intros. apply Permutation_length. apply sort_keys_perm. Qed.
+
+Lemma sort_keys_single : forall {T} (x : string * T), sort_keys [x] = [x].
+Proof. intros T [k v]. reflexivity. Qed.
+
+Lemma mj_with_sort : forall l, mj_with (Some (sort_keys l)) = mj_with (Some l).
+Proof.
+  intros l. destruct l as [|x [|y r]]; [reflexivity|rewrite sort_keys_single; reflexivity|].
+  pose proof (sort_keys_length (x :: y :: r)) as Len.
+  pose proof (mj_map_ss_sort (x :: y :: r)) as E.
+  destruct (sort_keys (x :: y :: r)) as [|a [|b t]]; try discriminate Len.
+  destruct x, y, a, b. cbn [mj_with]. exact E.
+Qed.
+
+Lemma unm_with_map_ss : forall l, unm_with (gv_of_json (mj_map_ss l)) = Ok (sort_keys l) 0.
+Proof.
+  intros l. unfold mj_map_ss. rewrite gv_of_json_obj. cbn [unm_with].
+  rewrite (sort_keys_map (fun v => JStr v) l). unfold gmap. rewrite map_map. cbn [fst snd gv_of_json].
+  rewrite (mapM_map_ok0 _ _ (fun kv => kv)); [rewrite map_id; reflexivity|].
+  intros [k v] _. reflexivity.
+Qed.
+
+Lemma with_roundtrip : forall l,
+  exists l', unm_with (gv_of_json (mj_with (Some l))) = Ok l' 0 /\ mj_with (Some l') = mj_with (Some l).
+Proof.
+  intros l.
+  assert (G : exists l', unm_with (gv_of_json (mj_map_ss l)) = Ok l' 0 /\ mj_with (Some l') = mj_with (Some l)).
+  { exists (sort_keys l). split; [apply unm_with_map_ss|apply mj_with_sort]. }
+  destruct l as [|[k v] [|y r]]; try exact G.
+  destruct (String.eqb k "") eqn:E.
+  - apply String.eqb_eq in E. subst k. exists [("", v)]. split; reflexivity.
+  - assert (X : mj_with (Some [(k, v)]) = mj_map_ss [(k, v)]) by (cbn [mj_with]; rewrite E; reflexivity).
+    rewrite X. rewrite X in G. exact G.
+Qed.
+
+Definition skip_ok (g : gv) : Prop := val_stable g /\ match g with GTime j => j <> "" | _ => True end.
+
+Lemma is_empty_reread : forall g, skip_ok g -> is_empty_any g = false ->
+  is_empty_any (gv_of_json (gv_json g)) = false.
+Proof.
+  intros g [S T] H. destruct g; cbn [gv_json]; try exact H.
+  - rewrite gv_of_json_int. exact H.
+  - unfold val_stable in S. cbn [gv_json json_stable] in S.
+    destruct (num_stable_cases _ S) as [(z & E & Z)|E]; rewrite E; cbn [is_empty_any] in *.
+    + destruct (Z.eqb_spec z 0) as [Ez|]; [|reflexivity]. subst z.
+      change (z_to_string 0) with "0" in Z. subst jtok. discriminate H.
+    + exact H.
+  - cbn [gv_of_json is_empty_any]. destruct (String.eqb_spec jtok ""); [contradiction|reflexivity].
+  - cbn [is_empty_any] in *. destruct l; [discriminate H|reflexivity].
+Qed.
+
+Definition adj_schema : list string := ["with"; "skip"].
+Definition matrix_schema : list string := ["setup"; "adjustments"].
+
+(* an adjustment re-reads to itself when it has a `with`, its `skip` is stable, and its extra fields are fine *)
+Definition adj_fix_ok (a : option madj) : Prop :=
+  match a with
+  | None => True
+  | Some a => ma_with a <> None /\ skip_ok (ma_skip a) /\ rem_ok adj_schema (ma_rem a)
+  end.
+Definition setup_fix_ok (su : option (list (string * option (list string)))) : Prop :=
+  match su with None => True | Some l => Forall (fun kv => snd kv <> None) l end.
+Definition matrix_fix_ok (m : matrix) : Prop :=
+  setup_fix_ok (mx_setup m) /\ Forall adj_fix_ok (mx_adj m) /\ rem_ok matrix_schema (mx_rem m).
+
+Definition adj_ol (w : option (list (string * string))) (sk : gv) : list (string * option json) :=
+  [("with", Some (mj_with w)); ("skip", if is_empty_any sk then None else Some (gv_json sk))].
+
+Lemma mj_adj_eq : forall a, mj_adj (Some a) = inline_friendly (compact (adj_ol (ma_with a) (ma_skip a))) (ma_rem a).
+Proof. intros a. unfold mj_adj, adj_ol. destruct (is_empty_any (ma_skip a)); reflexivity. Qed.
+
+Lemma adj_reobj : forall o1 o2 rem, rem_ok adj_schema rem ->
+  let ol := [("with", o1); ("skip", o2)] in
+  let p := partition_keys struct_MatrixAdjustment (gmap (members (inline_friendly (compact ol) rem))) in
+  field "With" p = option_map gv_of_json o1 /\ field "Skip" p = option_map gv_of_json o2 /\
+  inline_friendly (compact ol) (leftover p) = inline_friendly (compact ol) rem.
+Proof.
+  intros o1 o2 rem R ol p.
+  assert (Nol : NoDup (map fst ol)) by (apply nodupb_sound; reflexivity).
+  unfold p. rewrite f_adj_with, f_adj_skip. cbn [first_key].
+  rewrite !(reobj_schema_get ol rem adj_schema) by (first [assumption|unfold adj_schema; in_lit]).
+  split; [destruct o1; reflexivity|]. split; [destruct o2; reflexivity|].
+  apply (noalias_fix _ ol rem adj_schema); try assumption.
+  intros pk al Hin. rewrite kt_adj in Hin. ktab_cases Hin; (split; [unfold adj_schema; in_lit|reflexivity]).
+Qed.
+
+Lemma adj_roundtrip : forall a, adj_fix_ok a ->
+  exists a', unm_adj (gv_of_json (mj_adj a)) = Ok a' 0 /\ mj_adj a' = mj_adj a.
+Proof.
+  intros [a|] H; [|exists None; split; reflexivity].
+  destruct H as (W & Sk & R). destruct (ma_with a) as [l|] eqn:EW; [clear W|congruence].
+  rewrite mj_adj_eq, EW. rewrite inline_friendly_members, gv_of_json_obj. cbn [unm_adj]. cbv zeta.
+  pose proof (adj_reobj (Some (mj_with (Some l)))
+                (if is_empty_any (ma_skip a) then None else Some (gv_json (ma_skip a))) _ R) as X.
+  cbv zeta in X. fold (adj_ol (Some l) (ma_skip a)) in X. destruct X as (F1 & F2 & FL).
+  set (p := partition_keys struct_MatrixAdjustment
+              (gmap (members (inline_friendly (compact (adj_ol (Some l) (ma_skip a))) (ma_rem a))))) in *.
+  rewrite F1, F2. cbn [option_map].
+  destruct (with_roundtrip l) as (l' & E1 & E2). rewrite E1, bind_ret_l. unfold ret at 1. rewrite bind_ret_l.
+  eexists. split; [reflexivity|].
+  rewrite mj_adj_eq. cbn [ma_with ma_skip ma_rem].
+  assert (EO : adj_ol (Some l') (match option_map gv_of_json (if is_empty_any (ma_skip a) then None else Some (gv_json (ma_skip a))) with
+                                 | Some v => v | None => GNull end) = adj_ol (Some l) (ma_skip a)).
+  { unfold adj_ol. rewrite E2. destruct (is_empty_any (ma_skip a)) eqn:Em; cbn [option_map]; [reflexivity|].
+    rewrite (is_empty_reread _ Sk Em). rewrite val_stable_fix by apply Sk. reflexivity. }
+  rewrite EO. exact FL.
+Qed.
+
+Definition su_anon (su : option (list (string * option (list string)))) : option (list string) :=
+  match su with Some l => setup_anon l | None => None end.
+
+Lemma mx_simple_eq : forall m,
+  mx_simple m = match mx_adj m, mx_rem m with [], [] => su_anon (mx_setup m) | _, _ => None end.
+Proof. intros m. unfold mx_simple, su_anon. destruct (mx_setup m), (mx_adj m), (mx_rem m); reflexivity. Qed.
+
+Lemma setup_anon_cons : forall l vs, setup_anon l = Some vs -> exists x r, vs = x :: r /\ l = [("", Some vs)].
+Proof.
+  intros l vs H. unfold setup_anon in H.
+  destruct l as [|[k [[|x r]|]] [|y t]]; try discriminate H.
+  destruct (String.eqb_spec k ""); [|discriminate H]. inversion H; subst. eauto.
+Qed.
+
+Lemma setup_sort : forall l,
+  mj_setup (Some (sort_keys l)) = mj_setup (Some l) /\ setup_anon (sort_keys l) = setup_anon l.
+Proof.
+  intros l. destruct l as [|x [|y r]]; [split; reflexivity|rewrite sort_keys_single; split; reflexivity|].
+  pose proof (sort_keys_length (x :: y :: r)) as Len.
+  assert (E : sort_keys (map (fun kv => (fst kv, mj_strs_opt (snd kv))) (sort_keys (x :: y :: r)))
+              = sort_keys (map (fun kv => (fst kv, mj_strs_opt (snd kv))) (x :: y :: r))).
+  { rewrite (sort_keys_map mj_strs_opt (sort_keys (x :: y :: r))), sort_keys_idem,
+      <- (sort_keys_map mj_strs_opt (x :: y :: r)). reflexivity. }
+  destruct (sort_keys (x :: y :: r)) as [|a [|b t]]; try discriminate Len.
+  split.
+  - unfold mj_setup. destruct x as [? [[|]|]], y, a as [? [[|]|]], b; cbn [setup_anon]; rewrite E; reflexivity.
+  - destruct x as [? [[|]|]], y, a as [? [[|]|]], b; reflexivity.
+Qed.
+
+Lemma setup_roundtrip : forall su, setup_fix_ok su ->
+  exists su', unm_setup (gv_of_json (mj_setup su)) = Ok su' 0 /\ mj_setup su' = mj_setup su /\ su_anon su' = su_anon su.
+Proof.
+  intros [l|] H; [|exists None; repeat split; reflexivity].
+  destruct l as [|x0 r0]; [exists None; repeat split; reflexivity|].
+  set (l := x0 :: r0) in *.
+  assert (ML : mj_setup (Some l) = match setup_anon l with
+                                   | Some vs => jstrs vs
+                                   | None => JObj (sort_keys (map (fun kv => (fst kv, mj_strs_opt (snd kv))) l))
+                                   end) by reflexivity.
+  rewrite ML. destruct (setup_anon l) as [vs|] eqn:SA.
+  - destruct (setup_anon_cons _ _ SA) as (x & r & -> & El).
+    exists (Some [("", Some (x :: r))]). unfold jstrs. rewrite gv_of_json_arr. cbn [unm_setup].
+    rewrite mapM_strs, bind_ret_l. split; [reflexivity|]. rewrite El. repeat split; reflexivity.
+  - exists (Some (sort_keys l)). split.
+    + rewrite gv_of_json_obj. cbn [unm_setup].
+      rewrite (sort_keys_map mj_strs_opt l). unfold gmap. rewrite map_map. cbn [fst snd].
+      rewrite (mapM_map_ok0 _ _ (fun kv => kv)); [rewrite map_id; reflexivity|].
+      intros [k v] Hin. cbn [fst snd].
+      assert (In (k, v) l) as Hl.
+      { eapply Permutation_in; [apply sort_keys_perm|exact Hin]. }
+      cbn [setup_fix_ok] in H. rewrite Forall_forall in H. specialize (H _ Hl). cbn [snd] in H.
+      destruct v as [vs|]; [|congruence]. cbn [mj_strs_opt]. rewrite unm_strings_jstrs, bind_ret_l. reflexivity.
+    + destruct (setup_sort l) as [E1 E2]. split; [rewrite E1; exact ML|].
+      cbn [su_anon]. exact E2.
+Qed.
